@@ -37,7 +37,13 @@ func verifSetTimer(w *collection.TimingWheel, key, value any, delay time.Duratio
 
 func verifSchedule(r *threading.TaskRunner, task func()) { task() }
 
-func verifRandn(n int) string { return "verifkey"[:n] }
+// distinct timer keys (the real ones are random 8-letter strings)
+var verifRandCnt int
+
+func verifRandn(n int) string {
+	verifRandCnt++
+	return ("verifkey" + string(rune('a'+verifRandCnt%26)))[9-n:]
+}
 
 var verifErrDel = errors.New("redis down")
 
